@@ -366,6 +366,59 @@ def stream_rules(ctx, rng, mn, syn):
                 break
 
 
+DIRECTIVE_LINES = [
+    ".byte 1, 2", ".word 3", ".dword 5", ".blkb 3", ".blkw 2", ".even", ".odd", ".align 4", '.ascii "ab"', '.asciz "ab"', ".rad50 /abc/",
+    ".repeat 2 { nop }", ".repeat 2\n{\n inc r1\n}", ".extern tail", ".list", ".nlist", ".title x", ".page", ".once", "make_raw \"x.raw\"",
+    "make_bin", ".globl tail", ".ident /v1/", ".sbttl abc", ".enabl lc", ".dsabl gbl", ".radix 8", ".psect a", ".asect", ".csect",
+    ".iif ne 1, nop", ".if ne 1\nnop\n.endc", ".macro m\nnop\n.endm", ".error", ".print", ".word ^o17, ^D9, ^xfF, ^b101", ".word 0Xf, 0O7, 0B1",
+    "mov #^Rabc, r0", ".word ^c1, ^C1", ".ascii <12><15>",
+]
+END_TAILS = ["", "\n", "\n*** end of file ***\n", "\n\x1a", "\n  'unterminated", "\n) ) )\n", "\nthis is ( not code", "\n\"\n", "\n.word 1,\n"]
+
+
+def stream_directives(ctx, rng, n):
+    """the letter case of every directive name (and of the radix letters it may contain), one directive at a time;
+    '.end' with text after it that is not a program"""
+    lines = list(DIRECTIVE_LINES)
+    for it in range(n):
+        if it < 2 * len(lines):
+            body = lines[it % len(lines)]
+        else:
+            body = rng.choice(lines)
+        pre = "".join(rng.choice(["nop\n", "inc r2\n", ".word 5\n", "l%d: clr r0\n" % it]) for _ in range(rng.randint(0, 3)))
+        tail = "tail: .word 7\n"
+        use_end = rng.random() < 0.45
+        end = (rng.choice([".end", ".end", "end", ".end tail"]) + rng.choice(END_TAILS)) if use_end else ""
+        base = pre + body + "\n" + tail + end
+        r0 = impl.assemble([("/w/d.mac", base)])
+        ctx.case(("directive", base))
+        ctx.count("directive programs")
+        ctx.count("directive programs ending in .end + text", bool(use_end))
+        if r0.outcome in ("crash", "hang"):
+            ctx.violation("a directive program ended in " + r0.outcome, {"files": [("/w/d.mac", base)]}, expected="result", observed=r0.exc)
+            continue
+        for v in range(3):
+            def recase(m):
+                w = m.group(0)
+                return w.upper() if v == 0 else (w.title() if v == 1 else "".join(c.upper() if rng.random() < 0.5 else c.lower() for c in w))
+            # directive names and keyword-like words only; quoted text and label names stay
+            def one(line):
+                if re.match(r"\s*(\.ascii|\.asciz|\.rad50|make_raw|\.ident|\.title|\.sbttl)\b", line, re.I):
+                    return re.sub(r"^\s*[.\w]+", recase, line, count=1)
+                return re.sub(r"(?<![\w$])(\.[a-z_][a-z0-9_]*|end|make_bin|\^[odxbrc]|0[xob](?=[0-9a-f]))", recase, line, flags=re.I)
+            body_lines = (pre + body + "\n" + tail).split("\n")
+            text = "\n".join(one(l) for l in body_lines)
+            if use_end:
+                e_first, _, e_rest = end.partition("\n")
+                text += one(e_first) + ("\n" + e_rest if _ else "")
+            r = impl.assemble([("/w/d.mac", text)])
+            ctx.count("directive variants")
+            if sig(r) != sig(r0):
+                ctx.violation("the letter case of a directive changes the result", {"original": base, "respelled": text, "files": [("/w/d.mac", text)]},
+                              expected=r0.summary(), observed=r.summary())
+                break
+
+
 def run(ctx):
     impl.load()
     rng = ctx.rng("c10")
@@ -374,13 +427,14 @@ def run(ctx):
     ctx.rule = ("generated programs (harness.gen) x 4 variants: structured re-rendering (number radix, bracket kind, symbol case, '.word' <-> "
                 "implicit list) followed by the textual rules (case of mnemonics/directives/registers/symbols/radix prefixes/hex digits, "
                 "rN <-> %N <-> sp/pc, the 33 synonym pairs of Spec.Isa, '(rN)' <-> '@rN', radix of numeric literals, blanks, blank lines, "
-                "comments); a fixed program x each rule alone x 12; the 21 practice programs x k textual variants (lines with string-like "
+                "comments); every directive alone in upper / title / random case, 45% ending in '.end' followed by text that is not a program; a fixed program x each rule alone x 12; the 21 practice programs x k textual variants (lines with string-like "
                 "operands untouched). Equal outcome, base, image and error kinds required (warnings aside). distinct = distinct base "
                 "programs and variants")
     th = ctx.thorough
     stream_rules(ctx, rng, mn, syn)
     stream_generated(ctx, rng, 600 if th else 120, mn, syn)
     stream_practice(ctx, rng, 6 if th else 2, mn, syn)
+    stream_directives(ctx, ctx.rng("c10-dir"), 1200 if th else 300)
 
 
 def search(ctx, broken):
